@@ -88,3 +88,36 @@ def n_undirected(out):
 
 def rows(out):
     return G.rows_from_masks(list(out))
+
+
+def sample_pdag5_codes(seed_parts, n, shard, nshards):
+    """n distinct random PDAG codes on 5 nodes (of 4^10), deterministic in the seed, this shard's share."""
+    if not n:
+        return
+    rng = util.rng_for(*(tuple(seed_parts) + ("pdag5",)))
+    codes = rng.choice(4 ** 10, n, replace=False)
+    for k, c in enumerate(codes):
+        if k % nshards == shard:
+            yield int(c)
+
+
+def near_chain(seed_parts):
+    """Weight matrices around the library's chain-graph special case: the canonical chain 0->1->...->p-1 with
+    arbitrary (non-unit, signed, tiny) weights, optionally with a few extra forward edges whose sign differs, or with
+    the chain reversed / relabelled.  Returns a float matrix."""
+    rng = util.rng_for(*seed_parts)
+    p = int(rng.integers(2, 9))
+    W = np.zeros((p, p))
+    style = int(rng.integers(0, 6))
+    sign = float(rng.choice([-1, 1]))
+    for i in range(p - 1):
+        mag = float(rng.choice([1.0, 2.0, 0.5, 1e-9, 3.7])) if style != 0 else 1.0
+        W[i, i + 1] = (sign if style in (1, 2, 3) else float(rng.choice([-1, 1]))) * mag if style else 1.0
+    if style in (2, 3, 4) and p >= 3:
+        for _ in range(int(rng.integers(1, 3))):
+            a, b = sorted(int(v) for v in rng.choice(p, 2, replace=False))
+            if b - a >= 2:
+                W[a, b] = -sign * float(rng.choice([1.0, 0.3, 2.0])) if style != 4 else sign
+    if style == 5:
+        W = W.T.copy()      # reversed chain: a chain graph, but not the canonical one
+    return W
